@@ -1,6 +1,7 @@
 """C09 — random number streams. Model: lean/EaselModel/Random/*, theorems: Props/C09.lean, harness: h_random.c"""
 import struct
 from vlib.engine import Prop, Failure
+from translate import rand_tables
 
 def f32bits(x):
     return "%08x" % struct.unpack("<I", struct.pack("<f", x))[0]
@@ -66,26 +67,68 @@ class C09(Prop):
     theorems = ["EaselModel.Props.C09." + t for t in (
         "mt19937_stream", "mt19937_64_stream", "fast_stream", "reinit_replays", "reinit_reports_seed",
         "seed0_nonzero32", "seed0_nonzero64", "nonzero_seed_kept", "roll_lt", "roll_unbiased32", "roll_unbiased64",
-        "random_unit", "rand64_double_ranges", "deal_spec", "dchoose_nonzero")] + ["EaselModel.MTP.fill_correct", "EaselModel.MTP.stream_eq_spec"]
+        "random_unit", "rand64_double_ranges", "deal_spec", "dchoose_nonzero",
+        "rand64_deal_spec", "rand64_deal_spec_real", "rand64_deal_vprime_one_clamped", "rand64_deal_first_accepted",
+        "uniformPositive_pos", "uniform_positive_unit", "gaussian_in_bounds", "gauss_table_sizes", "gamma_positive", "dirichlet_simplex",
+        "mem_bytes", "floatstring_fits", "samplers_replay", "mt_constants_published")] + ["EaselModel.MTP.fill_correct", "EaselModel.MTP.stream_eq_spec"]
     claimed = True
     technique = "Lean 4 proof (generic in-place-refill = recurrence theorem, stream invariant by induction, roll/deal arithmetic) + exact differential correspondence of the executable model with the ASan/UBSan-built C generators"
     level_text = ("Theorems for all seeds and all stream positions: the model's MT19937 / MT19937-64 / LCG output equals the reference recurrence across any number of refills; "
                   "re-init replays; seed 0 gives a non-zero reported seed; Roll is the unbiased rejection map with equal-size preimages; doubles lie in their intervals; Deal gives m increasing in-range values. "
                   "The hand-written model is tied to the working tree by a bit-exact differential run over operation histories; any divergence is a concrete failing (seed, history).")
     level_note = ("Trusted: Lean kernel + propext/Classical.choice/Quot.sound; the hand model's fidelity is checked (not proved) by the differential run; clock/pid inputs of seed selection are arbitrary inputs; "
-                  "rejection loops terminate with probability 1 (fuel in the model); float comparison in Deal assumed equal to exact comparison (L0); Vitter esl_rand64_Deal, Gaussian/Gamma/Dirichlet samplers not modelled.")
+                  "rejection loops terminate with probability 1 (fuel in the model); float comparison in Deal assumed equal to exact comparison (L0); esl_rand64_Deal (Vitter D + A) is modelled exactly (binary64 through the Float instance, sample predicted bit for bit) "
+                  "and its structure theorem (m strictly increasing values in [0,n), every generator state) is proved over any ordered field with arbitrary exp/log oracles; "
+                  "Gaussian/Gamma/Dirichlet/mem/floatstring are modelled and driven bit for bit, their support theorems are over R (L0 for binary64).")
     diverge_is_violation = True   # every op is a deterministic documented function of (seed, history)
     trusted_base = ["hand model of esl_random.c/esl_rand64.c tied by exact differential run (h_random.c, ASan+UBSan build of the working tree)",
                     "Lean compiler/runtime for the executable driver", "gcc; IEEE-754 division/multiplication by powers of two exact (L0)"]
     assumptions = ["choose_arbitrary_seed's clock/pid are arbitrary inputs of the model",
                    "rejection loops (Roll, UniformPositive) modelled with fuel 10^6: terminate with probability 1, not for every stream",
                    "esl_rnd_Deal's double comparison equals the exact rational comparison (n < 2^31; separation 2^20 ulp) - checked by the differential run only",
-                   "esl_rand64_Deal (Vitter) and Gaussian/Gamma samplers are not modelled"]
+                   "esl_rand64_Deal: int64 skeleton modelled in Int (no overflow for 13*m < 2^63, n < 2^63); binary64 facts 0 <= exp(x), exp(x) <= 1 for x <= 0, log(u) <= 0 on [0,1] and exactness of integer-valued doubles below 2^53 are L0 (checked by the bit-exact differential run, not proved)",
+                   "test hooks pokeraw/pokeraw64 (overwrite a table word k draws ahead) are harness-only; every table content is a state of the generator's single cycle"]
     rule = ("cases = operation histories (create/re-init/draw/roll/deal/choose) over boundary, power-of-two and random seeds; "
             "non-trivial = history with at least one draw after a table refill or a derived draw; distinct by output trace")
 
+    def generated(self, ctx):
+        # Gaussian tables and the integer literals of the MT / LCG routines, regenerated from the working tree
+        g, self._gtabs, self._lits = rand_tables.generate(ctx)
+        return g
+
     def corpus(self, ctx):
         return [dict(c, sticky=1) for c in self._corpus()]
+
+    GAMMA_A = [0.01, 0.5, 0.999, 1.0, 1.5, 2.0, 2.999, 3.0, 3.0000001, 3.5, 7.0, 11.0, 12.0, 12.5, 50.0, 1000.0]
+
+    def _sampler_ops(self, rng, mersenne):
+        """Gaussian / Gamma / Dirichlet / mem / floatstring on the current 32-bit generator (either kind).
+        Gaussian: the first uniform decides sign, table index i = floor(32*(2u-s)) and centre/tail; force it (pokeraw) onto
+        index boundaries k/64, onto 0.5 +- 1 ulp, onto the smallest/largest uniforms (deepest tail: i reaches 31)."""
+        r = rng.random()
+        ops = []
+        if r < 0.4:
+            if mersenne and rng.random() < 0.6:
+                k = rng.randrange(0, 65)
+                x = rng.choice([1, 2, 3, 0x7fffffff, 0x80000000, 0x80000001, 0x80000002, 0xffffffff, 0xfffffffe,
+                                min(0xffffffff, max(1, k * (1 << 26) + rng.choice([-1, 0, 1]))), rng.randrange(1, 1 << 27),
+                                0x80000000 + rng.randrange(1, 1 << 27), rng.randrange(1, 1 << 12)])
+                ops.append("pokeraw w=%d" % untemper(x))
+            mean = rng.choice([0.0, 0.0, 1.0, -3.5, 1e6, rng.uniform(-10, 10)])
+            sd = rng.choice([1.0, 1.0, 0.0, 2.5, 1e-3, rng.uniform(0, 10)])
+            ops.append("gauss mean=%s sd=%s" % (dbits(mean), dbits(sd)))
+        elif r < 0.7:
+            a = rng.choice(self.GAMMA_A + [rng.uniform(0.001, 20.0), rng.uniform(0.001, 1.0), float(rng.randrange(1, 12))])
+            ops.append("gamma a=%s" % dbits(a))
+        elif r < 0.85:
+            K = rng.randrange(1, 9)
+            if rng.random() < 0.3: ops.append("dirichlet k=%d" % K)
+            else: ops.append("dirichlet alpha=" + ",".join(dbits(rng.choice(self.GAMMA_A[:12] + [rng.uniform(0.01, 5.0)])) for _ in range(K)))
+        elif r < 0.93:
+            ops.append("mem n=%d" % rng.choice([0, 1, 7, 64, 300]))
+        else:
+            ops.append("floatstr")
+        return ops
 
     def _corpus(self):
         return [
@@ -99,6 +142,12 @@ class C09(Prop):
                 "pokeraw64 w=%d" % untemper64(10 * (M64 // 10) - 1), "roll64 n=10", "u64 k=2"]},
             {"name": "dchoose-zero-roll", "ops": ["new32 seed=7", "pokeraw w=%d" % untemper(0), "dchoose p=" + ",".join(dbits(x) for x in (0.0, 0.5, 0.5)), "random"]},
             {"name": "fast", "ops": ["newfast seed=1", "u32 k=3", "roll n=6", "init seed=1", "u32 k=3"]},
+            # regression for fix ba43348: the accepted Vprime is exactly 1.0; before the fix the C code returned {7,27}
+            {"name": "deal64-vprime-one",
+             "ops": ["new64 seed=1", "pokeraw64 w=%d" % untemper64(9305357566071262703),
+                     "pokeraw64 w=%d off=1" % untemper64(18276914810643972096), "deal64 m=2 n=27", "u64 k=2"]},
+            {"name": "deal64-methods", "ops": ["new64 seed=42", "deal64 m=5 n=1000000", "deal64 m=50 n=100", "deal64 m=1 n=1", "deal64 m=100 n=100",
+                     "deal64 m=20 n=1099511627776", "pokeraw64 w=0", "deal64 m=3 n=1000", "pokeraw64 w=%d" % untemper64(M64), "deal64 m=1 n=7", "u64 k=3"]},
             {"name": "mt64", "ops": ["new64 seed=42", "u64 k=1", "u64 k=311", "u64 k=1", "u64 k=1000", "roll64 n=18446744073709551615", "dbl64", "dblclosed", "dblopen"]},
         ]
 
@@ -120,7 +169,9 @@ class C09(Prop):
                 ops.append(("new32" if rng.random() < 0.85 else "newfast") + " seed=%d" % seed)
                 for _ in range(rng.randrange(1, 14)):
                     r = rng.random()
-                    if r < 0.35:
+                    if rng.random() < 0.22:
+                        ops += self._sampler_ops(rng, ops[0].startswith("new32"))
+                    elif r < 0.35:
                         ops.append("u32 k=%d" % rng.choice([1, 2, 5, 100, 623, 624, 625, 1248, rng.randrange(1, 3000), rng.randrange(1, 100000 if ctx.tier != "quick" or c < 10 else 5000)]))
                     elif r < 0.5:
                         nn = rng.choice([1, 2, 3, 6, 7, 10, 19, 255, 256, 389, 1000, 65537, 2**31 - 1, 2**30 + 1, 1898087491, rng.randrange(1, 2**31)])
@@ -181,11 +232,7 @@ class C09(Prop):
                             ops.append("pokeraw64 w=%d" % untemper64(rng.choice(roll_boundary_words(nn, 64, rng))))
                         ops.append("roll64 n=%d" % nn)
                     elif r < 0.68:
-                        nn = rng.choice([1, 2, 5, 14, 100, 1000, rng.randrange(1, 5000), rng.randrange(1, 10**6), 2**40])
-                        mm = rng.choice([1, 1, 2, min(nn, 13), min(nn, 50), nn if nn < 3000 else 100, rng.randrange(1, min(nn, 2000) + 1)])
-                        mm = max(1, min(mm, nn))          # precondition of esl_rand64_Deal: 1 <= m <= n
-                        ops.append("deal64 m=%d n=%d" % (mm, nn))
-                        ops.append("new64 seed=%d" % rng.randrange(1, 1 << 64))   # model does not track deal64's draws
+                        ops += self._deal64_ops(rng)
                     elif r < 0.72: ops.append("int64")
                     elif r < 0.78: ops.append("dbl64")
                     elif r < 0.85: ops.append("dblclosed")
@@ -193,6 +240,28 @@ class C09(Prop):
                     else: ops.append("new64 seed=%d" % s64)
             out.append({"name": "gen%d" % c, "ops": ops, "sticky": 1})
         return out
+
+    def _deal64_ops(self, rng):
+        """esl_rand64_Deal(m, n), 1 <= m <= n: method D runs while n > 13*m (then method A or the final floor(n*Vprime) step);
+        shapes: m=1; n just above/below/at the 13*m switch; n >> m (long skips, slow y2 path); m = n (all taken); huge n;
+        first uniform forced to 0 (log(0) = -inf, Vprime = 0, first S rejected) or to the largest value"""
+        shape = rng.random()
+        if shape < 0.15:   mm = 1; nn = rng.choice([1, 2, 3, 7, 27, 1000, 2**31, 2**40, 2**53 - 1, rng.randrange(1, 10**6)])
+        elif shape < 0.35: mm = rng.choice([2, 3, 5, 10, 50, 200]); nn = max(mm, 13 * mm + rng.choice([-14, -1, 0, 1, 2, 13, 14, 27]))
+        elif shape < 0.6:  mm = rng.choice([2, 3, 4, 7, 20, 100, rng.randrange(2, 400)]); nn = mm * rng.choice([14, 20, 100, 1000, 10**6]) + rng.randrange(0, 50)
+        elif shape < 0.7:  nn = rng.choice([1, 2, 5, 14, 100, rng.randrange(1, 3000)]); mm = nn
+        elif shape < 0.8:  nn = rng.choice([2**40, 2**45, 2**52, 10**15]); mm = rng.choice([1, 2, 13, 50, 300])
+        else:
+            nn = rng.choice([1, 2, 5, 14, 100, 1000, rng.randrange(1, 5000), rng.randrange(1, 10**6)])
+            mm = rng.choice([1, 2, min(nn, 13), min(nn, 50), nn if nn < 3000 else 100, rng.randrange(1, min(nn, 2000) + 1)])
+        mm = max(1, min(mm, nn))          # precondition of esl_rand64_Deal: 1 <= m <= n
+        ops = []
+        pk = rng.random()
+        if pk < 0.12:   ops.append("pokeraw64 w=%d" % untemper64(rng.choice([0, 1 << 11, (1 << 11) - 1])))          # u = 0, 2^-53, 0
+        elif pk < 0.24: ops.append("pokeraw64 w=%d" % untemper64(rng.choice([M64, M64 - (1 << 11), M64 >> 1, 1 << 63])))
+        elif pk < 0.32: ops.append("pokeraw64 w=%d off=%d" % (untemper64(rng.choice([0, M64, (1 << 12) - 1, 1 << 12, M64 - (1 << 12)])), rng.randrange(1, 6)))
+        ops.append("deal64 m=%d n=%d" % (mm, nn))
+        return ops
 
     def compare(self, ctx, case, impl_out, model_out):
         # ops the model answers with "unmodelled" are judged by the monitor only
